@@ -5,6 +5,7 @@ package vswitch
 import (
 	"context"
 	"errors"
+	"golang.org/x/sync/singleflight"
 	"strconv"
 	"time"
 
@@ -182,6 +183,32 @@ func ZZ_C17_block() {
 	calls := cloud.calls
 	_, _ = pool.GetByID(context.Background(), cloud, first.ID)
 	zz.Assert(cloud.calls == calls, "a cached vSwitch is served from the cache without a cloud call")
+}
+
+// C17(c) under a concurrent cache fill: several selections miss the cache for
+// the same vSwitch at the same moment and share one lookup (the single-flight
+// group then reports "shared" to every one of them, also to the caller that
+// ran the lookup).  The looked-up entry must still end up in the cache, else
+// the Block that follows a failed create has nothing to zero and the exhausted
+// vSwitch is chosen again.
+// zz:noreplay the shared flag of the single-flight group needs real concurrency; it is forced through an engine-side override
+func ZZ_C17_block_shared_fill() {
+	zz.Override("(*golang.org/x/sync/singleflight.Group).Do", func(g *singleflight.Group, key string, fn func() (interface{}, error)) (interface{}, error, bool) {
+		v, err := fn()
+		return v, err, true
+	})
+	n := zz.Fork("n", 2) + 1
+	pool, cloud, ids, _ := zzWorld(n)
+	first, err := pool.GetOne(context.Background(), cloud, "z1", ids)
+	if err != nil || first == nil {
+		zz.Reach("nothing-to-block")
+		return
+	}
+	pool.Block(first.ID)
+	ids2 := make([]string, n)
+	copy(ids2, zzIDs[:n])
+	second, _ := pool.GetOne(context.Background(), cloud, "z1", ids2)
+	zz.Assert(second == nil || second.ID != first.ID, "a blocked (exhausted) vSwitch is not chosen again while its cache entry lives, also when its cache fill was shared between concurrent selections")
 }
 
 // C17: with expiry the blocked entry may vanish and the cloud view returns;
